@@ -6,7 +6,36 @@ import subprocess
 
 HERE = os.path.dirname(os.path.dirname(os.path.abspath(__file__)))
 
+GEN_NOTE = ("Trusted: graphql-core as the model of a spec-conformant server (parser/validator are shared with the repository, executor/coercion are not); "
+            "httpx.MockTransport; pydantic for the meaning of annotations. Held means held on the generated cases; the evidence lists the generator features covered.")
+
 CHECKS = {
+    "C01": dict(
+        category="exploration",
+        technique="runtime monitoring: real generation + import in a fresh fork, generated methods driven against a graphql-core reference server under scripted worlds; parallel-walk oracle over response vs returned model",
+        text="For seeded schemas/operations/configurations the real CLI generates a package which is imported and called against a reference executor whose "
+             "resolvers script every runtime type, nulls and list lengths with unique-token values. The returned object is walked in parallel with the response "
+             "(key exposure, value equality, enum members, __typename literal membership at abstract positions) and dumped back by alias for a round-trip comparison.",
+        note=GEN_NOTE, design="4/C01"),
+    "C02": dict(
+        category="exploration",
+        technique="runtime monitoring: transport-boundary capture of the sent document; AST-equality oracle against the authored document after undoing the two documented rewrites; full-rule validation with graphql-core",
+        text="The query text and operationName captured at the transport for every generated method are parsed, validated against the harness-built schema with "
+             "all specified rules and compared node by node (names, aliases, argument value ASTs, directives, variable definitions, fragment closure) with what the user wrote.",
+        note=GEN_NOTE, design="4/C02"),
+    "C04": dict(
+        category="exploration",
+        technique="runtime monitoring: real CLI run per case in a fresh fork, outcome classifier (success / documented refusal / other), import of every emitted module, pydantic completeness, __all__ and reported-files comparison",
+        text="Generation is run through the real CLI on seeded valid inputs across the configuration rotation; any failure that is not a documented refusal whose cause is "
+             "present in the input is a violation; every emitted module is parsed and imported, every model must be complete, __all__ must equal what __init__ binds "
+             "and the reported file list must equal the files on disk.",
+        note=GEN_NOTE, design="4/C04"),
+    "C05": dict(
+        category="exploration",
+        technique="runtime monitoring: single-point corruption of conformant responses fed to the real result models (must raise ValidationError) + evaluated-annotation vs independent GraphQL-type image",
+        text="Every conformant response from the reference server is corrupted at one position in each of the ways the statement lists and validated by the real generated model; "
+             "the evaluated annotation of every reached result field is compared with an independent image of its GraphQL type.",
+        note=GEN_NOTE, design="4/C05"),
     "C11": dict(
         category="exploration",
         technique="runtime monitoring: transport-boundary capture + reference multipart/JSON oracle; schedule stress (asyncio.gather with seeded awaits, 8 threads at 1us switch interval, sys.monitoring LINE yield injection) with per-call unique ids",
